@@ -6,8 +6,10 @@
    cfg = [lg_k].  A case holds two groups g = 0,1 of three sketches t = 0,1,2 (Hll4, Hll6,
    Hll8); stream ops feed the three sketches of a group in lock-step.
    ops: 1 upd [g; item; coupon]   2 cpn [g; coupon]   3 dump [g; t]   4 est [g; t]
-        5 bounds [g; t]           6 raw [g; t]        7 ser [g; t] (not modelled yet) *)
-From DS Require Import Base.Prelude Base.FloatBits Base.HllSort Model.Hll Model.HllUnion.
+        5 bounds [g; t]           6 raw [g; t]        7 ser [g; t] -> the image bytes
+        8 rt [g; t]   sketch := deserialize(serialize(sketch))
+        9 deser [g; t; bytes...]  sketch := deserialize(bytes) -> [1] | ERR *)
+From DS Require Import Base.Prelude Base.FloatBits Base.HllSort Model.Hll Model.HllUnion Model.HllCodec Spec.HllLayout.
 From Coq Require Import Floats FMapPositive.
 Open Scope Z_scope.
 
@@ -92,6 +94,17 @@ Definition step (st : slots) (o : zop) : slots * list Z :=
   | 4 => match get_sk st idx with Some s => (st, [fb (hll_estimate s)]) | None => (st, PANIC) end
   | 5 => match get_sk st idx with Some s => (st, bounds s) | None => (st, PANIC) end
   | 6 => match get_sk st idx with Some s => (st, raw s) | None => (st, PANIC) end
+  | 7 => match get_sk st idx with Some s => (st, map Nz (hll_serialize s)) | None => (st, PANIC) end
+  | 8 => match get_sk st idx with
+         | Some s => match hll_deserialize (hll_serialize s) with
+                     | Ok s' => (set_nth (Z.to_nat idx) (Some s') st, [])
+                     | Err => (st, ERR)
+                     | Stuck => (st, PANIC) end
+         | None => (st, PANIC) end
+  | 9 => match hll_deserialize (map zN (skipn 2 a)) with
+         | Ok s' => (set_nth (Z.to_nat idx) (Some s') st, [1])
+         | Err => (st, ERR)
+         | Stuck => (st, PANIC) end
   | _ => (st, PANIC)
   end.
 
@@ -181,12 +194,16 @@ Fixpoint prop_from (lgk : N) (g0 g1 : ogroup) (ops : list zop) (obs : list (list
       | 2 => continue (og_add lgk o (zN (nth 1 a 0)))
       | 3 => dump_ok lgk o (nth 1 a 0) ob && continue o
       | 4 | 5 => query_ok o code (nth 1 a 0) ob && continue (og_push o code (nth 1 a 0) ob)
+      | 9 => true            (* the sketch was replaced by an arbitrary image: no Spec state to compare with *)
       | _ => continue o
       end
   | _, _ => true
   end.
 
 Definition is_union_case (cfg : list Z) : bool := nth 1 cfg 0 =? 1.
+
+Fixpoint NoDup_b (l : list Z) : bool :=
+  match l with [] => true | x :: r => negb (existsb (Z.eqb x) r) && NoDup_b r end.
 
 Definition prop_ok (c : case) : bool :=
   if is_union_case (c_cfg c) then true
@@ -384,4 +401,145 @@ Definition union_ok (c : case) : bool :=
     union_from lg_max (repeat None 8) (mkOu (PositiveMap.empty unit) 0 false lg_max None) (c_ops c) (c_obs c)
   else true.
 
-Definition oracles : list (Z * (case -> bool)) := [(0, prop_ok); (1, union_ok)].
+(* ================= codec oracles (C11 / C12 / C13 / C14 / C18 parts) ================= *)
+(* C11 twin: group 0 and group 1 are fed the same stream in the same order; group 0 is forked
+   through serialize/deserialize (op 8) at arbitrary points.  Observations (dump, estimate, bounds,
+   image bytes of images without aux entries) taken at the same stream position by the same type
+   must be identical across the two groups. *)
+Definition image_has_aux (ob : list Z) : bool :=
+  (nth 7 ob 0 mod 4 =? 2) && ((nth 7 ob 0 / 4) mod 4 =? 0) &&
+  negb ((nth 36 ob 0 =? 0) && (nth 37 ob 0 =? 0) && (nth 38 ob 0 =? 0) && (nth 39 ob 0 =? 0)).
+
+Fixpoint twin_from (n0 n1 : N) (seen : list (Z * N * Z * Z * list Z)) (ops : list zop) (obs : list (list Z)) : bool :=
+  match ops, obs with
+  | (code, a) :: r, ob :: obr =>
+      if list_eqb Z.eqb ob PANIC then false else
+      let g := nth 0 a 0 in
+      let t := nth 1 a 0 in
+      let n := if g =? 0 then n0 else n1 in
+      match code with
+      | 1 | 2 => if g =? 0 then twin_from (n0 + 1) n1 seen r obr else twin_from n0 (n1 + 1) seen r obr
+      | 3 | 4 | 5 | 7 =>
+          if (code =? 7) && image_has_aux ob then twin_from n0 n1 seen r obr
+          else
+            forallb (fun e => let '(c, m, t', g', ob') := e in
+                              if (c =? code) && (m =? n)%N && (t' =? t) && negb (g' =? g) then list_eqb Z.eqb ob ob' else true) seen
+            && twin_from n0 n1 ((code, n, t, g, ob) :: seen) r obr
+      | 8 => (match ob with [] => true | _ => false end) && twin_from n0 n1 seen r obr
+      | _ => twin_from n0 n1 seen r obr
+      end
+  | _, _ => true
+  end.
+
+Definition twin_ok (c : case) : bool :=
+  if is_union_case (c_cfg c) then true else twin_from 0 0 [] (c_ops c) (c_obs c).
+
+(* C12 / C18: the independent decoder (Spec/HllLayout.v) applied to the crate's image recovers the
+   Spec state of the stream: lg_k, type, mode = function of the number of distinct coupons, the
+   coupon set / the per-slot maxima, cur_min = min register, num_at_cur_min, the exceptions; array
+   images carry the COMPACT flag; and the image has exactly the size the mode dictates. *)
+Definition spec_min_reg (o : ogroup) (lgk : N) : N :=
+  fold_left (fun m j => N.min m (og_reg o j)) (lseq 0 (N.to_nat (2 ^ lgk))) 63%N.
+Definition spec_count_regs (o : ogroup) (lgk : N) (p : N -> bool) : N :=
+  N.of_nat (length (filter (fun j => p (og_reg o j)) (lseq 0 (N.to_nat (2 ^ lgk))))).
+
+Definition image_ok (lgk : N) (o : ogroup) (t : Z) (ob : list Z) : bool :=
+  let bs := map zN ob in
+  match hll_spec_decode bs with
+  | None => false
+  | Some im =>
+      let m := spec_mode_code lgk (og_d o) in
+      (Nz (im_mode im) =? m) && (im_lgk im =? lgk)%N && (Nz (im_type im) =? t) &&
+      if m =? 2 then
+        let k := (2 ^ lgk)%N in
+        let is4 := (im_type im =? 0)%N in
+        let is6 := (im_type im =? 1)%N in
+        let cm := if is4 then spec_min_reg o lgk else 0%N in
+        let naux := if is4 then spec_count_regs o lgk (fun v => (cm + 15 <=? v)%N) else 0%N in
+        let body := (if is4 then k / 2 + 4 * naux else if is6 then 3 * k / 4 + 1 else k)%N in
+        regs_match o 0 (map Nz (im_regs im)) && (N.of_nat (length (im_regs im)) =? k)%N &&
+        (im_cur_min im =? cm)%N && (im_num_at_cur_min im =? spec_count_regs o lgk (fun v => (v =? cm)%N))%N &&
+        (N.of_nat (length (im_aux im)) =? naux)%N &&
+        negb (N.land (nth 5 bs 0%N) 8 =? 0)%N &&
+        (* C18: 40 + k/2 | 3k/4+1 | k bytes, plus 4 per aux entry *)
+        (N.of_nat (length bs) =? 40 + body)%N
+      else
+        let cs := map Nz (im_coupons im) in
+        (Z.of_nat (length cs) =? Nz (og_d o)) && forallb (fun c => og_mem o (zN c)) cs &&
+        NoDup_b cs &&
+        (* C18: 8 + 4c | 12 + 4c *)
+        let pre := if m =? 0 then 8%N else 12%N in
+        (N.of_nat (length bs) =? pre + 4 * og_d o)%N
+  end.
+
+Fixpoint layout_from (lgk : N) (g0 g1 : ogroup) (ops : list zop) (obs : list (list Z)) : bool :=
+  match ops, obs with
+  | (code, a) :: r, ob :: obr =>
+      if list_eqb Z.eqb ob PANIC then false else
+      let g := nth 0 a 0 in
+      let o := if g =? 0 then g0 else g1 in
+      let continue (o' : ogroup) := if g =? 0 then layout_from lgk o' g1 r obr else layout_from lgk g0 o' r obr in
+      match code with
+      | 1 => continue (og_add lgk o (zN (nth 2 a 0)))
+      | 2 => continue (og_add lgk o (zN (nth 1 a 0)))
+      | 7 => image_ok lgk o (nth 1 a 0) ob && continue o
+      | 9 => true
+      | _ => continue o
+      end
+  | _, _ => true
+  end.
+
+Definition layout_ok (c : case) : bool :=
+  if is_union_case (c_cfg c) then true
+  else layout_from (zN (nth 0 (c_cfg c) 0)) og_empty og_empty (c_ops c) (c_obs c).
+
+(* C13: a foreign image (written by the generator's spec encoder: every variant of the Java/C++
+   writers) must be accepted, and the state dumped right after must be the one the independent
+   decoder reads from the same bytes: mode, lg_k, type, the coupon set / the registers, and for
+   arrays the out-of-order flag, cur_min, the exceptions, and kxq0/kxq1 (and the HIP accumulator
+   unless out of order, where it is zeroed).  op 9 is always followed by the dump (op 3). *)
+Fixpoint sorted_nodup_insert (x : Z) (l : list Z) : list Z :=
+  match l with [] => [x] | y :: r => if x <? y then x :: l else if x =? y then l else y :: sorted_nodup_insert x r end.
+Definition sort_set (l : list Z) : list Z := fold_right sorted_nodup_insert [] l.
+
+Definition dump_matches_image (im : himage) (ob : list Z) : bool :=
+  (nth 0 ob (-1) =? Nz (im_mode im)) && (nth 1 ob (-1) =? Nz (im_lgk im)) && (nth 2 ob (-1) =? Nz (im_type im)) &&
+  if (im_mode im =? 2)%N then
+    let naux := nth 9 ob 0 in
+    let vs := skipn (10 + 2 * Z.to_nat naux) ob in
+    list_eqb Z.eqb vs (map Nz (im_regs im)) &&
+    (nth 5 ob (-1) =? zbool (im_ooo im)) &&
+    (if im_ooo im then nth 6 ob (-1) =? 0 else nth 6 ob (-1) =? Nz (im_hip im)) &&
+    (nth 7 ob (-1) =? Nz (im_kxq0 im)) && (nth 8 ob (-1) =? Nz (im_kxq1 im)) &&
+    (if (im_type im =? 0)%N then (nth 3 ob (-1) =? Nz (im_cur_min im)) && (naux =? Z.of_nat (length (im_aux im))) else true)
+  else
+    list_eqb Z.eqb (skipn 5 ob) (sort_set (map Nz (im_coupons im))) &&
+    (nth 4 ob (-1) =? Z.of_nat (length (sort_set (map Nz (im_coupons im))))).
+
+Fixpoint foreign_from (pending : option himage) (ops : list zop) (obs : list (list Z)) : bool :=
+  match ops, obs with
+  | (code, a) :: r, ob :: obr =>
+      if list_eqb Z.eqb ob PANIC then false else
+      match code with
+      | 9 => match hll_spec_decode (map zN (skipn 2 a)) with
+             | Some im => list_eqb Z.eqb ob [1] && foreign_from (Some im) r obr
+             | None => foreign_from None r obr       (* not a valid image under the layout: no claim *)
+             end
+      | 3 => match pending with
+             | Some im => dump_matches_image im ob && foreign_from None r obr
+             | None => foreign_from None r obr
+             end
+      | _ => foreign_from None r obr
+      end
+  | _, _ => true
+  end.
+
+Definition foreign_ok (c : case) : bool :=
+  if is_union_case (c_cfg c) then true else foreign_from None (c_ops c) (c_obs c).
+
+(* C14: no operation of the case panicked or allocated out of proportion (-997) *)
+Definition no_panic (c : case) : bool :=
+  forallb (fun ob => negb (list_eqb Z.eqb ob PANIC) && negb (list_eqb Z.eqb ob [-997])) (c_obs c).
+
+Definition oracles : list (Z * (case -> bool)) :=
+  [(0, prop_ok); (1, union_ok); (2, twin_ok); (3, layout_ok); (4, foreign_ok); (5, no_panic)].
